@@ -154,6 +154,10 @@ func runC16(t *testing.T, tape *sim.Tape, tier string) *Outcome {
 			return false
 		}
 	}
+	restart := tape.Draw(6, "restart") == 5
+	// operations sent under a spelling that only Unicode case mapping turns into the command's name: a server may
+	// take them for the command (then atomically, like every other spelling) or refuse them as unknown
+	spelled := map[[2]int]bool{}
 	for j := 0; j < nclients; j++ {
 		n := 1 + tape.Draw(maxOps, "nops")
 		var items [][]byte
@@ -173,7 +177,21 @@ func runC16(t *testing.T, tape *sim.Tape, tier string) *Outcome {
 				o.stat("commands_framed_as_nested_array", 1)
 				continue
 			}
-			items = append(items, resp.Cmd(op.Args()...))
+			args := op.Args()
+			// the name in one of the spellings the server takes for it: upper case, lower case, or (one in six)
+			// with the non-ASCII letters whose upper-case form is an ASCII letter
+			switch tape.Draw(6, "spelling") {
+			case 4:
+				args[0] = strings.ToLower(args[0])
+			case 5:
+				// (not in histories cut by a Restart: an operation that stays pending must be one the server executes)
+				if u := wl.UnicodeSpelling(args[0]); u != "" && !restart {
+					args[0] = u
+					spelled[[2]int{j, i}] = true
+					o.stat("commands_spelled_with_non_ascii_letters", 1)
+				}
+			}
+			items = append(items, resp.Cmd(args...))
 		}
 		c := cl.addClient(fmt.Sprintf("cli%d", j), addr, items)
 		c.Lockstep = true
@@ -181,7 +199,7 @@ func runC16(t *testing.T, tape *sim.Tape, tier string) *Outcome {
 	}
 	// a third of the histories run in a selected database; a third of the runs switch on the scheduling points inserted by source rewriting in front of every lock acquisition and sync.Map access; one history in six is cut by a Restart at a seed-chosen moment: commands already inside a handler call
 	// complete after their connection was closed, and clients of the restarted server run against them
-	if tape.Draw(6, "restart") == 5 {
+	if restart {
 		cl.lifecycle("Restart")
 		o.stat("histories_with_restart", 1)
 		for j := nclients; j < nclients+1+tape.Draw(2, "nlate"); j++ {
@@ -225,6 +243,12 @@ func runC16(t *testing.T, tape *sim.Tape, tier string) *Outcome {
 				op.Output = wl.StrOut{Reply: &v}
 				op.Return = int64(c.RetSeq[k])
 				desc = v.String()
+			}
+			if spelled[[2]int{j, i}] && k < len(c.Vals) && c.Vals[k].K == resp.Error {
+				// refused (or failed): an error reply never comes with an effect, so the operation is left out
+				lines = append(lines, fmt.Sprintf("client %d [%d,%d] %s (spelled with non-ASCII letters) -> %s: not part of the history", j, op.Call, op.Return, strings.Join(ops[j][i].Args(), " "), desc))
+				o.stat("non_ascii_spellings_refused", 1)
+				continue
 			}
 			hist = append(hist, op)
 			lines = append(lines, fmt.Sprintf("client %d [%d,%d] %s -> %s", j, op.Call, op.Return, strings.Join(ops[j][i].Args(), " "), desc))
@@ -275,7 +299,7 @@ func init() {
 	register(&Check{
 		ID: "C16", Bubble: true, Run: runC16,
 		Runs:   map[string]int{"quick": 30000, "thorough": 1000000},
-		Rule:   "a case is one concurrent history: 2..4 (thorough ..8) lock-step clients x 1..4 (thorough ..6) operations over 1..3 keys from GET/SET/SETNX/GETSET/INCR/DECR/INCRBY/DECRBY/APPEND/MSETNX/DEL with unique written values (one command in eight framed as an array nested in a one-element array), against the reference store (every handler-call entry is a scheduling point) or the bundled example store (every record access is a scheduling point); a third of the histories run in a selected database; a third of the runs switch on the scheduling points inserted by source rewriting in front of every lock acquisition and sync.Map access; one history in six is cut by a Restart at a seed-chosen moment (operations in flight stay pending, 1..2 clients of the restarted server follow); invocation/response stamped with global event sequence numbers; checked with porcupine against a sequential string model; distinct = distinct event-log hashes; non-trivial = at least two operations",
+		Rule:   "a case is one concurrent history: 2..4 (thorough ..8) lock-step clients x 1..4 (thorough ..6) operations over 1..3 keys from GET/SET/SETNX/GETSET/INCR/DECR/INCRBY/DECRBY/APPEND/MSETNX/DEL with unique written values (one command in eight framed as an array nested in a one-element array; one in six spelled in lower case, one in six with the non-ASCII letters that upper-case to ASCII letters), against the reference store (every handler-call entry is a scheduling point) or the bundled example store (every record access is a scheduling point); a third of the histories run in a selected database; a third of the runs switch on the scheduling points inserted by source rewriting in front of every lock acquisition and sync.Map access; a quarter of the histories give half of their SETs a time to live and advance the simulated clock 1..4 times after such a SET was answered (from the advance that reaches its time to live on, the key may expire: an optional, never-returning step of the model); one history in six is cut by a Restart at a seed-chosen moment (operations in flight stay pending, 1..2 clients of the restarted server follow); invocation/response stamped with global event sequence numbers; checked with porcupine against a sequential string model; distinct = distinct event-log hashes; non-trivial = at least two operations",
 		Real:   []string{"redis.Server accept loop, connection goroutines, dispatch, string executors and derived commands", "examples/go-redisd/server string store (half of the runs)"},
 		Stub:   []string{"network: simulated", "handler (other half): reference store with atomic primitives", "oracle: porcupine v1.3.0 + sequential string model"},
 		Assume: []string{"histories are capped at 48 operations; porcupine timeouts (10 s) are counted as inconclusive and never reported"},
